@@ -119,8 +119,8 @@ def anchor_files(prop: str) -> set[str]:
 
 
 def anchor_scope(ctx: "Ctx", prop: str) -> set[str]:
-    """Anchor files of a property plus the files defining a base class of any class in them: the inherited code runs as part of
-    the anchored classes (a calculator's conversions live in its abstract bases)."""
+    """Anchor files of a property, the files defining a base class of any class in them (the inherited code runs as part of the anchored
+    classes: a calculator's conversions live in its abstract bases) and the files defining the classes they import by name."""
     key = f"anchor_scope.{prop}"
     if key not in ctx.cache:
         files = set(anchor_files(prop))
@@ -131,6 +131,17 @@ def anchor_scope(ctx: "Ctx", prop: str) -> set[str]:
                     for b in M.mro(c):
                         if b.mod.rel.startswith("pyoda_time/"):
                             files.add(b.mod.rel)
+        # classes the anchored modules import by name (module level or inside functions): the anchored code computes with them
+        import ast as _ast
+
+        for m in M.mods.values():
+            if m.rel in set(anchor_files(prop)):
+                for n in _ast.walk(m.tree):
+                    if isinstance(n, _ast.ImportFrom):
+                        for a in n.names:
+                            for c in M.classes.get(a.name, []):
+                                if c.mod.rel.startswith("pyoda_time/") and c.outer is None:
+                                    files.add(c.mod.rel)
         ctx.cache[key] = files
     return ctx.cache[key]
 
